@@ -284,4 +284,60 @@ theorem composite_calls_shape :
     lookup Gen.C01.callSeqs "ReadTextShortLength" = some ["ReadUShort", "ReadBytes"] := by
   decide
 
+/-! ### fixed-width readers / writers: which width, which conversion -/
+
+/-- every fixed-width reader asks `ReadBytes` for exactly the width of its field and hands the bytes
+    to the conversion whose meaning is proved above (`get_*`); the model's `readOp` reads the same
+    widths (`rdI w` / `rdU w` / `rdILittle w` / `rdULittle w`) -/
+theorem prim_readers_shape :
+    Gen.C01.primReaders =
+      [("ReadBool", some (1, "b[0] == 1")), ("ReadByte", some (1, "b[0]")),
+       ("ReadDouble", some (8, "ToDouble(b, 0)")), ("ReadFloat", some (4, "ToFloat(b, 0)")),
+       ("ReadInt", some (4, "ToInt(b, 0)")), ("ReadInt3", some (3, "ToInt3(b, 0)")),
+       ("ReadIntLittle", some (4, "ToIntLittle(b, 0)")), ("ReadLong", some (8, "ToLong(b, 0)")),
+       ("ReadLong5", some (5, "ToLong5(b, 0)")), ("ReadShort", some (2, "ToShort(b, 0)")),
+       ("ReadShortLittle", some (2, "ToShortLittle(b, 0)")), ("ReadUShort", some (2, "ToUShort(b, 0)")),
+       ("ReadUintLittle", some (4, "ToUintLittle(b, 0)")), ("ReadUnsignedInt", some (4, "ToUint(b, 0)")),
+       ("ReadUnsignedShort", some (2, "uint16(ToShort(b, 0))")),
+       ("ReadUnsignedShortLittle", some (2, "uint16(ToUshortLittle(b, 0))"))] := by
+  decide
+
+/-- every fixed-width writer hands `WriteBytes` the bytes of the packing function of its own width
+    (whose shifts are `put_shape`) -/
+theorem prim_writers_shape :
+    Gen.C01.primWriters =
+      [("WriteBool", some "ToBytesBool(b)"), ("WriteDouble", some "ToBytesDouble(b)"),
+       ("WriteFloat", some "ToBytesFloat(b)"), ("WriteInt", some "ToBytesInt(b)"),
+       ("WriteInt3", some "ToBytesInt3(b)"), ("WriteLong", some "ToBytesLong(b)"),
+       ("WriteLong5", some "ToBytesLong5(b)"), ("WriteShort", some "ToBytesShort(b)"),
+       ("WriteUShort", some "ToBytesUShort(b)")] := by
+  decide
+
+/-! ### `ReadBytes`: the buffer guard and the connection loop
+
+  The statements of `ReadBytes` as the model reads them: on a byte slice, a size that is negative
+  or larger than what is left fails before anything is allocated (`P.run`'s `hasAtLeast` test); on a
+  connection, `conn.Read(buff[until:])` is repeated, `left -= n; until += n`, until nothing is
+  left, and an error of the connection fails the read — `Prim.Stream.readN`
+  (`Prim.Stream.readN_is_loop`).  Golden text: a rewrite of this function has to be re-tied here. -/
+theorem readBytes_shape :
+    Gen.C01.readBytes =
+      ["if in.tcp == nil && (sz < 0 || int(sz) > in.buffer.Len()) {", "panic", "}",
+       "in.offset += sz",
+       "buff := make([]byte, sz)",
+       "if in.tcp != nil {",
+       "nbytesleft := int(sz)",
+       "nbytesuntilnow := 0",
+       "for nbytesleft > 0 {",
+       "nbytethistime, err := in.tcp.Read(buff[nbytesuntilnow:])",
+       "if err != nil {", "panic", "}",
+       "nbytesleft -= nbytethistime",
+       "nbytesuntilnow += nbytethistime",
+       "}",
+       "} else {",
+       "if _, err := in.buffer.Read(buff); err != nil {", "panic", "return nil", "}",
+       "}",
+       "return buff"] := by
+  decide
+
 end C01Gen
